@@ -2646,3 +2646,83 @@ def reregistration_keeps_every_method_once(ctx):
             not problems,
             "; ".join(problems[:3]) + ": the method table after this history is not the one a freshly built function has (a stale duplicate answers call_next, or a method is lost)",
         )
+
+
+# ---------------------------------------------------------------------------------------- which positions are type-valued
+def only_type_annotations_make_a_position_type_valued(ctx):
+    """The per-argument record's test that makes the analyser pick the finer key function for a position, interpreted
+    on annotations of every normal form: it holds for a `type[...]` alias and for nothing else - not for a plain class,
+    not for a combination of the package, not for a value-dependent type (which carries `__origin__` / `__args__` too).
+    A position marked without need keys every class passed there by itself: calls that are one combination of argument
+    types are resolved again and again."""
+    import types as _types
+    import typing as _typing
+
+    from ..metainterp import HostInterp, Instance, Raised
+
+    repo = ctx.repo
+    an = A.argument_analyzer(repo)
+    read = set()
+    for m in an.methods.values():
+        rv = recv_name(m)
+        for n in ast.walk(m.node):
+            if isinstance(n, ast.Attribute) and isinstance(n.value, ast.Name) and n.value.id != rv:
+                read.add(n.attr)
+    cands = []
+    for c in repo.all_classes():
+        fields = {st.target.id for st in c.node.body if isinstance(st, ast.AnnAssign) and isinstance(st.target, ast.Name)}
+        props = {m.name: m for m in c.methods.values() if any(dotted(d) in ("property", "cached_property", "functools.cached_property") for d in m.node.decorator_list)}
+        if len((fields | set(props)) & read) >= 3:
+            for name, m in props.items():
+                rv = recv_name(m)
+                attrs = {x.attr for x in ast.walk(m.node) if is_self_attr(x, selfname=rv)}
+                tests = [x for x in ast.walk(m.node) if isinstance(x, ast.Call) and call_name(x) in ("isinstance", "hasattr", "get_origin", "typing.get_origin")]
+                if name in read and len(attrs) == 1 and tests and attrs <= fields:
+                    cands.append((c, m, next(iter(attrs))))
+    ctx.require(len(cands) == 1, f"the per-argument record's type-valued test was not found ({[m.key for _, m, _ in cands]})")
+    cls, prop, fld = cands[0]
+    ctx.touch(prop)
+    raw = repo.raw_methods(cls)
+    # names of the property's module, as that module binds them
+    genv = {}
+    for n in ast.walk(prop.node):
+        if isinstance(n, ast.Name) and isinstance(n.ctx, ast.Load):
+            imp = cls.module.imports.get(n.id)
+            if imp and imp[0] == "ext" and imp[1] in ("types", "typing") and len(imp) > 2 and imp[2] and hasattr(__import__(imp[1]), imp[2]):
+                genv[n.id] = getattr(__import__(imp[1]), imp[2])
+            elif imp and imp[0] == "extmod" and imp[1] in ("types", "typing"):
+                genv[n.id] = __import__(imp[1])
+    dep = Instance("a value-dependent type", {})
+    dep.__dict__.update(__origin__=None, __args__=(1, 2), parameters=(1, 2), bound=int)
+    comb = Instance("a combination of the package", {})
+    comb.__dict__.update(__args__=(int, str), types=(int, str))
+    cases = [
+        ("type[int]", type[int], True),
+        ("type[object]", type[object], True),
+        ("type[list[int]]", type[list[int]], True),
+        ("int", int, False),
+        ("object", object, False),
+        ("a value-dependent type (Literal[1, 2])", dep, False),
+        ("a union of the package", comb, False),
+    ]
+    problems = []
+    for label, ann, want in cases:
+        o = Instance(cls.name, raw)
+        o.__dict__[fld] = ann
+        hi = HostInterp(raw, o, {}, globals_env=dict(genv), classes={}, functions={})
+        hi.host_types = hi.host_types + (_types.GenericAlias,)
+        try:
+            got = hi.call_function(raw[prop.name], [o], {}, {})
+        except Raised as r:
+            got = f"raises {r.what}"
+        except (TypeError, AttributeError, KeyError) as ex:
+            raise AnalysisError(f"{prop.key}: not interpretable on {label}: {type(ex).__name__}: {ex}")
+        if bool(got) is not want or isinstance(got, str):
+            problems.append(f"for {label} it answers {got!r}")
+    ctx.ob(
+        f"{prop.key}:type-annotations-only",
+        prop.loc(),
+        f"`{cls.name}.{prop.name}` holds for type[...] annotations and for no other normal form (interpreted on {len(cases)} annotations; names resolved as {cls.module.rel} binds them)",
+        not problems,
+        "; ".join(problems) + ": a position is keyed with the finer key function without a type[...] method asking for it (every class passed there becomes a key of its own and is resolved separately, recurse keys stop matching the entry point's), or a type[...] position is keyed by class and its methods stop matching",
+    )
